@@ -1206,10 +1206,12 @@ fn designator_to_asg(
         Some(synast::Expr::Identifier(identifier)) => {
             let (sym, typ) = lookup_identifier(&identifier, context);
             if typ.is_const() {
-                let const_value = context.get_const_value(sym.unwrap());
-                let width = match u32::try_from(const_value.unwrap()) {
-                    Ok(width) => width,
-                    Err(_) => {
+                // An undeclared name, or a const-typed symbol without a recorded value (qubit, gate, ...),
+                // has no value to evaluate.
+                let const_value = sym.ok().and_then(|id| context.get_const_value(id));
+                let width = match const_value.map(u32::try_from) {
+                    Some(Ok(width)) => width,
+                    _ => {
                         context.insert_error(InvalidDesignatorError, &identifier);
                         // It's not clear what value to substitute for the width if we don't have a valid one.
                         // We choose zero.
